@@ -113,8 +113,7 @@ def run(pid, mod, tier, seed):
                     "checker_cmd": proof["cmd"], "theorems": proof["theorems"],
                     "print_assumptions": proof["assumptions"], "coq_wall_s": proof["wall_s"]})
     else:
-        cov.update({"obligations": len(mod.THEOREMS), "discharged": 0,
-                    "checker_cmd": f"make -C coq -j16 props/{pid}.vo"})
+        cov.update({"obligations_attempted": len(mod.THEOREMS), "obligations_discharged": 0})
     cov.setdefault("evaluations", 0)
     cov.setdefault("distinct_nontrivial", 0)
     cov["exhaustive"] = False
